@@ -46,6 +46,7 @@ type cfg struct {
 	Extend    bool
 	Policy    int
 	Parallel  bool `json:",omitempty"` // points and queries from the grid with parallel vectors
+	Mmax      int  `json:",omitempty"` // explicit link budget of the upper layers (0 = not given); the level-0 budget stays 2M
 }
 
 type caseT struct {
@@ -76,6 +77,9 @@ func check(c caseT) (key, desc string) {
 	opts := []index.HnswOption{index.HnswM(c.Cfg.M), index.HnswEf(n), index.HnswEfConstruction(n)}
 	if c.Cfg.Heuristic {
 		opts = append(opts, index.HnswSearchAlgorithm(index.HnswSearchHeuristic), index.HnswHeuristicExtendCandidates(c.Cfg.Extend))
+	}
+	if c.Cfg.Mmax > 0 {
+		opts = append(opts, index.HnswMmax(c.Cfg.Mmax))
 	}
 	sp := idxlib.Space(c.Cfg.Space)
 	ix := index.NewHnsw(2, sp, opts...)
@@ -352,15 +356,19 @@ func main() {
 	var cfgs []cfg
 	for _, sp := range []string{"euclidean", "manhattan", "cosine"} {
 		for _, pol := range []int{0, 1} {
-			cfgs = append(cfgs, cfg{sp, 2, false, false, pol, false}, cfg{sp, 2, true, false, pol, false})
+			cfgs = append(cfgs, cfg{Space: sp, M: 2, Heuristic: false, Extend: false, Policy: pol, Parallel: false}, cfg{Space: sp, M: 2, Heuristic: true, Extend: false, Policy: pol, Parallel: false})
 			if thorough {
-				cfgs = append(cfgs, cfg{sp, 2, true, true, pol, false}, cfg{sp, 1, false, false, pol, false})
+				cfgs = append(cfgs, cfg{Space: sp, M: 2, Heuristic: true, Extend: true, Policy: pol, Parallel: false}, cfg{Space: sp, M: 1, Heuristic: false, Extend: false, Policy: pol, Parallel: false})
 			}
 			if pol == 0 && !thorough {
-				cfgs = append(cfgs, cfg{sp, 2, true, true, pol, false}) // heuristic selection with candidate extension
+				cfgs = append(cfgs, cfg{Space: sp, M: 2, Heuristic: true, Extend: true, Policy: pol, Parallel: false}) // heuristic selection with candidate extension
+			}
+			if pol == 0 || thorough {
+				// sparse upper layers: an explicit upper-layer budget below M leaves the level-0 budget (2M) alone
+				cfgs = append(cfgs, cfg{Space: sp, M: 2, Policy: pol, Mmax: 1})
 			}
 			if sp == "cosine" && (pol == 0 || thorough) {
-				cfgs = append(cfgs, cfg{sp, 2, false, false, pol, true}, cfg{sp, 2, true, false, pol, true})
+				cfgs = append(cfgs, cfg{Space: sp, M: 2, Heuristic: false, Extend: false, Policy: pol, Parallel: true}, cfg{Space: sp, M: 2, Heuristic: true, Extend: false, Policy: pol, Parallel: true})
 			}
 		}
 	}
@@ -451,6 +459,7 @@ func main() {
 	run.Assumptions = []string{
 		"clause 1 (directed part): n = 2M+1 for M in {4, 16 = library default, 32}: 2M clustered points + one far outlier, outlier and one level-1 vertex at {first, middle, last}; k in {1,2,M,n-1,n}",
 		"clause 1, cosine metric: a second 8-point grid with scaled copies (parallel vectors, mutual cosine distance zero up to rounding) and queries parallel to stored points; a query whose exact ranking has ties is checked for completeness and ascending true scores at k = n",
+		"clause 1: one configuration per metric with an explicit upper-layer link budget below M (HnswMmax(1), M=2)",
 		"clause 1: after the n inserts one more insert under the last id (another vector) must be refused and leave no trace; both tiers include heuristic selection with candidate extension",
 		"clause 1: 8-point grid in R^2, n <= 2M+1 (M=2: n<=5; quick n<=4), levels {0,1,2}^n, ef = efConstruction = n, queries with pairwise distinct distances (tied queries skipped), map-order policies {ascending, descending}",
 		"clause 2 is evaluated on a fixed finite family of random collections (default parameters) and is a SAMPLE of its quantifier, not exhaustive",
